@@ -28,13 +28,17 @@ CLANGXX = shutil.which("clang++") or "clang++"
 GXX = shutil.which("g++") or "g++"
 
 
+WORK = BUILD   # where scratch files / fact caches of this invocation live
+
+
 def set_repo(path):
     """Analyse another tree (self-tests, seeded mutants).  Evidence of such a run never
-    lands in /verif/evidence, which only ever describes /repo itself."""
-    global REPO, EVIDENCE, REPLAYS
+    lands in /verif/evidence, which only ever describes /repo itself; caches are kept apart."""
+    global REPO, EVIDENCE, REPLAYS, WORK
     REPO = os.path.abspath(path)
     if REPO != "/repo":
-        EVIDENCE = os.path.join(BUILD, "alt_evidence")
+        WORK = os.path.join(BUILD, "alt", hashlib.sha256(REPO.encode()).hexdigest()[:12])
+        EVIDENCE = os.path.join(WORK, "evidence")
         REPLAYS = os.path.join(EVIDENCE, "replays")
 
 
@@ -95,7 +99,7 @@ def ensure_dir(d):
 
 def scratch(name):
     """Per-invocation scratch dir under /verif/build (git-ignored)."""
-    d = os.path.join(BUILD, name)
+    d = os.path.join(WORK, name)
     shutil.rmtree(d, ignore_errors=True)
     os.makedirs(d)
     return d
@@ -276,9 +280,9 @@ class Report:
             self.prop, self.obligations, self.discharged, len(new), len(listed), wall))
         for f in listed:
             print("KNOWN-FINDING: property=%s %s :: %s" % (self.prop, f.text(), known[f.key]))
-        if self.broken:
-            for b in self.broken:
-                print("ANALYSIS-BROKEN property=%s: %s" % (self.prop, b))
+        for b in self.broken:
+            print("ANALYSIS-BROKEN property=%s: %s" % (self.prop, b))
+        if self.broken and not new:
             return 2
         if new:
             for f, p in zip(new, replay_paths):
